@@ -663,8 +663,9 @@ def fam_recerr(rnd, i):
     its Create, so that watching it fails with ELOOP: the reader is parked reporting that while the consumer looks at
     Events only.  Control calls must come back, the error must be delivered, the stream and Close must go on."""
     w = "w1"
+    sp = rnd.choice(["rel", "abs"])
     steps = [{"s": "recurse", "recurse": True}, fs("mkdir", ("r",)), fs("mkdir", ("r", "sub")), new(w, rnd.choice([0, 0, 1])),
-             call(w, "add", ("r",), rnd.choice(["rel", "abs"]), recurse=True), drain(w)]
+             call(w, "add", ("r",), sp, recurse=True), drain(w)]
     d = rnd.choice([("r",), ("r", "sub")])
     x = d + ("x",)
     # an earlier event holds the reader back (nobody is receiving)
@@ -677,7 +678,9 @@ def fam_recerr(rnd, i):
         steps += [drain(w), obs(w), fs("write", x), drain(w), fs("chmod", x), drain(w), obs(w), call(w, "close"), drain(w), obs(w),
                   {"s": "recurse", "recurse": False}]
         return steps
-    steps += [fs("mkdir", x), fs("rmdir", x), fs("symloop", x)]
+    # a fault at the registration of the new directory: the recorded flags of its parent's watch are made invalid
+    # (hook), inotify_add_watch fails with EINVAL, and the reader has that error to report while only Events is drained
+    steps += [{"s": "wflags", "w": w, "arg": arg(d, sp), "ops": 0x30000000}, fs("mkdir", x)]   # IN_MASK_ADD|IN_MASK_CREATE: rejected by the kernel
     steps += [{"s": "drain", "w": w, "only": "ev"}]
     mode = rnd.choice(["calls", "calls", "close", "late"])
     if mode == "calls":
@@ -692,7 +695,7 @@ def fam_recerr(rnd, i):
     elif mode == "close":
         steps += [call(w, "close"), drain(w), obs(w)]
     else:
-        steps += [drain(w), obs(w), fs("create", d + ("f1",)), fs("unlink", x), fs("mkdir", x), drain(w), fs("create", x + ("in",)), drain(w), obs(w),
+        steps += [drain(w), obs(w), fs("create", d + ("f1",)), drain(w), obs(w),
                   call(w, "close"), drain(w), obs(w)]
     steps.append({"s": "recurse", "recurse": False})
     return steps
